@@ -2747,8 +2747,12 @@ class Processor:
                         recurse(item, parent, parentref, reference_node,
                                 replacement_node)
             elif isinstance(data, (CommentedSet, set)):
-                data.discard(reference_node)
-                data.add(replacement_node)
+                for ele in data:
+                    if ele is reference_node and (
+                            data is parent or hasattr(ele, "anchor")):
+                        data.discard(ele)
+                        data.add(replacement_node)
+                        break
             elif isinstance(data, OrderedDict):
                 # Manual key (re)ordering is necessary and YMKs are not
                 # supported.
